@@ -23,7 +23,7 @@ RULE = ("identifier texts: (a) Python numeric literals from Python's grammar (de
         "radix digits, dangling exponent, non-ASCII-space padding ...). Non-trivial = the text has a "
         "separator, exponent, radix prefix or imaginary part; distinct by text.")
 FLOOR = {"quick": 3000, "thorough": 3000}
-BUDGET = {"quick": 22, "thorough": 360}
+BUDGET = {"quick": 18, "thorough": 360}
 CASE_TIMEOUT = 20
 NEEDS_EVENTS = True
 ANCHORS = ["hy.reader.hy_reader:as_identifier",
@@ -53,18 +53,36 @@ KEY_SEP_AFTER_SIGN = "separator-after-sign-read-as-number"
 KEY_USPACE = "non-ascii-space-padded-number"
 
 
+def known_feature_keys(text):
+    """Input features of the recorded findings (purely lexical, via the recogniser)."""
+    ref = tg.classify_number(text)
+    keys = []
+    if ref[0] == "not":
+        if "sep-after-sign" in ref[1]:
+            keys.append(KEY_SEP_AFTER_SIGN)
+        if "uspace" in ref[1]:
+            keys.append(KEY_USPACE)
+    elif ref[0] == "num" and ref[1] == "Integer" and "leadzero" in ref[3] and ref[2] != 0 \
+            and ("signed" in ref[3] or "sep" in ref[3]):
+        keys.append(KEY_LEADZERO)
+    return keys
+
+
 def cases(seed, tier, shard, nshards):
     i = 0
+    quota = tg.Quota(40)
     while True:
         rng = rng_for(seed, ID, shard, i)
         i += 1
         r = rng.random()
         if r < 0.4:
-            yield {"text": tg.py_number(rng), "cls": "py"}
+            case = {"text": tg.py_number(rng), "cls": "py"}
         elif r < 0.7:
-            yield {"text": tg.ext_number(rng), "cls": "ext"}
+            case = {"text": tg.ext_number(rng), "cls": "ext"}
         else:
-            yield {"text": tg.near_miss(rng), "cls": "near"}
+            case = {"text": tg.near_miss(rng), "cls": "near"}
+        if quota.admit(known_feature_keys(case["text"])):
+            yield case
 
 
 def case_key(case):
